@@ -176,3 +176,9 @@ Lemma pfp_set_reference_target h target : pfp (e_set_reference_target T tab_el t
 Proof. unfold e_set_reference_target. pf_tac. Qed.
 
 End PF.
+
+#[export] Hint Resolve pfp_add_identifiable pfp_remove_identifiable pfp_fix_identifiables pfp_add_reference_origin
+  pfp_fix_reference_origins pfp_remove_reference_origin pfp_content_insert pfp_raw_set_cdata pfp_raw_set_attribute
+  pfp_detach_from pfp_move_position pfp_make_unique pfp_register_subtree pfp_upd_refs_loop pfp_ow_loop
+  pfp_move_ref_body pfp_fixid_body pfp_rename_ref_body pfp_rm_id_loop pfp_rm_ref_loop pfp_add_id_loop
+  pfp_add_ref_loop : frp.
